@@ -181,13 +181,13 @@ Lemma h_xfam_checked :
   chk_C18 os_x (stale_report (model_history t0 os_x h_xfam)) = false.
 Proof. repeat split; vm_compute; reflexivity. Qed.
 
-(* ---- finding: IpDel of an address the daemon still holds on another entry ------------------------- *)
+(* ---- repaired (0f7c6ac): an address the daemon still holds on another entry is not withdrawn ------ *)
 (* The address of eth0 moves to eth1.  Before the next IP check an enable call makes the daemon
    take up (eth1, w_v6) from the fresh table while it still holds (eth0, w_v6): IpAdd, announced
-   with w_v6 on eth1.  The IP check then drops the entry of eth0 and withdraws the bare address
-   from the services (IpDel), although eth1 has it and is enabled: the repeated announcement one
-   second later no longer carries it.  The checker rejects the trace (last word about the
-   address is IpDel, the OS table has it on an enabled entry). *)
+   with w_v6 on eth1.  The IP check then drops the entry of eth0; the address is still held on
+   eth1, so there is no IpDel and the services keep it: the repeated announcement one second
+   later carries it.  (Before 0f7c6ac the check reported IpDel and withdrew the bare address from
+   the services; the checker rejected that trace: clause last_word_ok.) *)
 Definition h_held : list step :=
   [ mkStep t0 None [] [CSetInterval 1; CRegister (c18_svc "Auto" []) true];
     mkStep (t0 + 5100) None [] [];                                             (* first IP check *)
@@ -196,10 +196,18 @@ Definition h_held : list step :=
     mkStep (t0 + 6200) None [] [];                                             (* IP check: eth0's entry goes *)
     mkStep (t0 + 7300) None [] [] ].                                           (* repeated announcement *)
 
-Lemma h_held_refutes :
+(* the trace of the code before the repair: IpDel in the iteration of the second IP check *)
+Definition with_del (h : list (step * list obs)) : list (step * list obs) :=
+  match h with
+  | x0 :: x1 :: x2 :: x3 :: (s4, o4) :: t => x0 :: x1 :: x2 :: x3 :: (s4, o4 ++ [OIpDel w_v6]) :: t
+  | _ => h
+  end.
+
+Lemma h_held_checked :
   let r := run (initial_state t0 os_mv) h_held in
   ip_events w_v6 (List.nth 3 r []) = [OIpAdd w_v6] /\ existsb (carries w_v6) (List.nth 3 r []) = true /\
-  ip_events w_v6 (List.nth 4 r []) = [OIpDel w_v6] /\
-  (0 <? N.of_nat (List.length (List.nth 5 r []))) = true /\ existsb (carries w_v6) (List.nth 5 r []) = false /\
-  chk_C18 os_mv (model_history t0 os_mv h_held) = false.
+  ip_events w_v6 (List.nth 4 r []) = [] /\
+  existsb (carries w_v6) (List.nth 5 r []) = true /\
+  chk_C18 os_mv (model_history t0 os_mv h_held) = true /\
+  chk_C18 os_mv (with_del (model_history t0 os_mv h_held)) = false.
 Proof. repeat split; vm_compute; reflexivity. Qed.
